@@ -55,14 +55,17 @@ Definition gcase_ok (c : gcase) : bool :=
   match c with
   | GRound k hashes base nd sp s g1 imp g2 =>
       let v := mk_env hashes base nd sp in
+      (* the invariant the theorems of Properties/C18.v assume, on the real store content of A and of B *)
+      wfb v s &&
       gen_eqb (export k s) g1 && res_eqb (import k v g1) imp &&
       match imp, g2 with
-      | Some s', Some g2' => gen_eqb (export k s') g2'
+      | Some s', Some g2' => wfb v s' && gen_eqb (export k s') g2'
       | None, None => true
       | _, _ => false
       end
   | GImport k hashes base nd sp g imp =>
-      res_eqb (import k (mk_env hashes base nd sp) g) imp
+      let v := mk_env hashes base nd sp in
+      res_eqb (import k v g) imp && match imp with Some s' => wfb v s' | None => true end
   end.
 
 Definition genesis_mismatches (off : nat) (l : list gcase) : list nat := mism gcase_ok off l.
